@@ -18,6 +18,21 @@ typedef struct {
     size_t evlen, evcap;
 } hconn_t;
 
+/* C07: what zlib returned for every inflate() call of the decompression driver during one data call (hook in
+ * htp_decompressors.c under LIBHTP_VERIF): "rc:consumed:produced-hex" items. The model of the driver is run against these. */
+extern void (*htp_verif_inflate_cb)(int, unsigned int, unsigned int, unsigned int, unsigned int, const unsigned char *);
+static char *g_zt; static size_t g_zt_len, g_zt_cap;
+static void zt_cb(int rc, unsigned int ib, unsigned int ia, unsigned int ob, unsigned int oa, const unsigned char *o) {
+    static const char *hxd = "0123456789abcdef";
+    size_t produced = ob - oa;
+    size_t need = g_zt_len + 64 + 2 * produced;
+    if (need > g_zt_cap) { g_zt_cap = need * 2; g_zt = realloc(g_zt, g_zt_cap); }
+    g_zt_len += (size_t) snprintf(g_zt + g_zt_len, 48, "%s%d:%u:", g_zt_len ? "," : "", rc, ib - ia);
+    if (!produced) g_zt[g_zt_len++] = '-';
+    for (size_t i = 0; i < produced; i++) { g_zt[g_zt_len++] = hxd[o[i] >> 4]; g_zt[g_zt_len++] = hxd[o[i] & 15]; }
+    g_zt[g_zt_len] = 0;
+}
+
 /* builds without ASan (cov, plain) have no allocator statistics: the `mem` operation then reports 0 */
 __attribute__((weak)) size_t __sanitizer_get_current_allocated_bytes(void) { return 0; }
 
@@ -166,7 +181,7 @@ static void hconn_free(hconn_t *h) {
     memset(h, 0, sizeof *h);
 }
 
-void conn_cleanup(void) { for (int i = 0; i < MAXCONN; i++) hconn_free(&g_conns[i]); }
+void conn_cleanup(void) { for (int i = 0; i < MAXCONN; i++) hconn_free(&g_conns[i]); free(g_zt); g_zt = NULL; g_zt_len = g_zt_cap = 0; }
 
 static void p_opt_len_raw(const void *p, size_t n) { if (p) printf("%zu", n); else printf("~"); }
 static void p_opt_len_bstr(const bstr *b) { if (b) printf("%zu", bstr_len(b)); else printf("~"); }
@@ -302,14 +317,22 @@ int op_conn(int id, int n, char **t) {
         htp_connp_open(cp, "127.0.0.1", 32768, "127.0.0.1", 80, &tv);
         printf("ok"); return 1;
     }
-    if ((!strcmp(t[0], "req") || !strcmp(t[0], "res")) && n == 2) {
+    if (!strcmp(t[0], "zon") && n == 1) { printf("ok"); return 1; }
+    if ((!strcmp(t[0], "req") || !strcmp(t[0], "res")) && (n == 2 || (n == 3 && t[0][2] == 's'))) {
         unsigned char *a; long al = hex_parse(t[1], &a); if (al < 0) return 0;
         /* exact-size heap copy so that ASan sees any read past the chunk */
         unsigned char *buf = malloc(al ? al : 1); memcpy(buf, a, al); free(a);
         int rc; size_t consumed;
+        htp_verif_inflate_cb = zt_cb; g_zt_len = 0; if (g_zt) g_zt[0] = 0;
         if (t[0][2] == 'q') { g_live_req = buf; g_live_req_len = al; rc = htp_connp_req_data(cp, &tv, buf, al); consumed = htp_connp_req_data_consumed(cp); g_live_req = NULL; }
         else { g_live_res = buf; g_live_res_len = al; rc = htp_connp_res_data(cp, &tv, buf, al); consumed = htp_connp_res_data_consumed(cp); g_live_res = NULL; }
         printf("rc=%d consumed=%zu len=%ld ev=[%s]", rc, consumed, al, h->ev ? h->ev : "");
+        if (n == 3) {
+            /* replay run: the trace recorded earlier is supplied (the model runs against it); report whether zlib did the same again */
+            const char *now = g_zt_len ? g_zt : "-";
+            printf(" zleft=%s", strcmp(now, t[2]) ? "trace-differs" : "0");
+        } else if (g_zt_len) printf(" zt=[%s]", g_zt);
+        g_zt_len = 0;
         /* the library may keep pointers into the chunk only during the call */
         free(buf);
         return 1;
@@ -414,7 +437,10 @@ int op_conn(int id, int n, char **t) {
         printf(" out_buf="); p_opt_len_raw(cp->out_buf, cp->out_buf_size);
         printf(" in_hdr="); p_opt_len_bstr(cp->in_header);
         printf(" out_hdr="); p_opt_len_bstr(cp->out_header);
-        printf(" next_idx=%lld :: ", (long long) cp->out_next_tx_index);
+        printf(" next_idx=%lld dec=[", (long long) cp->out_next_tx_index);
+        for (htp_decompressor_t *dc = cp->out_decompressor; dc; dc = dc->next)
+            printf("%s%d:%d", dc == cp->out_decompressor ? "" : ",", ((htp_decompressor_gzip_t *) dc)->zlib_initialized, (int) dc->passthrough);
+        printf("] :: ");
         for (size_t i = 0; i < ntx; i++) {
             htp_tx_t *tx = htp_list_get(conn->transactions, i);
             if (i) printf(" | ");
